@@ -1,5 +1,5 @@
-import Ekit.Go.Basic
 import Ekit.Generated.Slice
-import Ekit.Model.Lists
+import Ekit.Go.Basic
 import Ekit.Lemmas.Lists
+import Ekit.Model.Lists
 import Ekit.Props.C04
